@@ -46,7 +46,8 @@ def ncf2wind(ncffile, outpath, tflag='TFLAG'):
         outfile.write(buf + hdr + buf)
         for zi in range(nzcl):
             for varkey in varkeys:
-                vals = ncffile.variables[varkey][di, zi].astype('>f')
+                vals = np.ma.filled(
+                    ncffile.variables[varkey][di, zi]).astype('>f')
                 buf = np.array([(vals.size) * 4],
                                ndmin=1).astype('>i').tobytes()
                 outfile.write(buf)
